@@ -27,6 +27,12 @@ fn build_sub(m: &SubModel, idx: Option<usize>) -> SubApp<()> {
             stream.write_all(format!("{}\n", name).as_bytes()).ok();
         });
     }
+    for c in routelab::cors_plan(m) {
+        s = match c {
+            Some(p) => s.with_cors_config(&p, humphrey::http::cors::Cors::wildcard()),
+            None => s.with_cors(humphrey::http::cors::Cors::wildcard()),
+        };
+    }
     s
 }
 
@@ -82,5 +88,5 @@ pub fn main(args: &Args) {
         total.nontrivial(1);
         total.nontrivial(2);
     }
-    total.write(out, "generated applications with 0..4 host sub-apps x 0..6 routes (+ 0..3 websocket routes) each and a default sub-app, patterns from literals, prefixes, suffixes, infixes, several and adjacent `*`, overlapping and shadowing; requests over Host {absent, exact, wildcard-matching, with port, non-matching, other case} x paths instantiated from registered patterns or random x {with, without query} x methods x extra headers; one request in ten is a WebSocket upgrade. distinct/non-trivial = requests whose path matches at least two registered routes (where order matters)", None, &["the match predicate of the reference router is an independent dynamic-programming glob matcher (the C05 oracle), so a wrong matcher is reported here as a wrong choice as well", "OPTIONS is not used as a method variant (it is answered by the library, see C01)"]);
+    total.write(out, "generated applications with 0..4 host sub-apps x 0..6 routes (+ 0..3 websocket routes) each and a default sub-app, patterns from literals, prefixes, suffixes, infixes, several and adjacent `*`, overlapping and shadowing, sub-apps with no, one or two per-route CORS configurations or a sub-app-wide one followed by a per-route one (set after the routes are registered); requests over Host {absent, exact, wildcard-matching, with port, non-matching, other case} x paths instantiated from registered patterns or random x {with, without query} x methods x extra headers; one request in ten is a WebSocket upgrade. distinct/non-trivial = requests whose path matches at least two registered routes (where order matters)", None, &["the match predicate of the reference router is an independent dynamic-programming glob matcher (the C05 oracle), so a wrong matcher is reported here as a wrong choice as well", "OPTIONS is not used as a method variant (it is answered by the library, see C01)"]);
 }
